@@ -761,6 +761,62 @@ fn run_fault_kinds(ctx: &mut Ctx, key: &SignedSecretKey) {
     }
 }
 
+/// the dearmorer read directly with every consumer buffer size, tiny ones included: decoded octets,
+/// final verdict and the results derived from the footer (checksum, its status) are the same
+/// (oracle only)
+fn run_dearmor_consumers(ctx: &mut Ctx, key: &SignedSecretKey) {
+    use pgp::armor::{Dearmor, DearmorOptions};
+    let mut rng = ChaCha8Rng::seed_from_u64(ctx.seed ^ 0xC09D);
+    let base = Cfg { utf8: false, compression: None, sign: false, enc: Enc::None, armor: true, chunk: 512, algs: DEF };
+    for n in [0usize, 1, 2, 3, 47, 48, 49, 200] {
+        let data = payload(&mut rng, false, n);
+        let mut good = Vec::new();
+        if !matches!(guarded(|| build(&base, key, &data[..], &mut good, 17)), Ok(Ok(()))) {
+            continue;
+        }
+        let text = String::from_utf8_lossy(&good).to_string();
+        let mut variants: Vec<(&str, Vec<u8>)> = vec![("valid", good.clone())];
+        variants.push(("end_line_names_another_type", text.replace("-----END PGP MESSAGE-----", "-----END PGP SIGNATURE-----").into_bytes()));
+        if let Some(p) = text.find("-----END") {
+            variants.push(("cut_before_the_end_line", good[..p].to_vec()));
+            variants.push(("cut_inside_the_end_line", good[..p + 9].to_vec()));
+        }
+        if let Some(p) = text.rfind("\n=") {
+            let mut v = good.clone();
+            v[p + 2] = if v[p + 2] == b'A' { b'B' } else { b'A' };
+            variants.push(("other_checksum", v));
+        }
+        for (what, doc) in &variants {
+            for crc in [false, true] {
+                let mut seen: Vec<(String, String)> = Vec::new();
+                for reqs in [vec![], vec![1usize], vec![2], vec![3], vec![2, 1], vec![7], vec![64], vec![8192], vec![0, 1]] {
+                    let r = guarded(|| {
+                        let opt = if crc { DearmorOptions::new().enable_crc24_check() } else { DearmorOptions::new() };
+                        let mut d = Dearmor::with_options(&doc[..], opt);
+                        let (out, res) = if reqs.is_empty() {
+                            let mut v = Vec::new();
+                            let r = d.read_to_end(&mut v).map(|_| ()).map_err(|e| e.to_string());
+                            (v, r)
+                        } else {
+                            drain_with(&mut d, &reqs)
+                        };
+                        // (what was delivered in front of an error may depend on the buffer size; the verdict
+                        //  and, on success, the octets and the footer results may not)
+                        match res {
+                            Ok(()) => format!("ok:{}:{:?}:{:?}", hx(&out), d.checksum, d.crc24_status()),
+                            Err(_) => "err".to_string(),
+                        }
+                    });
+                    seen.push((format!("{reqs:?}"), r.unwrap_or_else(|p| format!("panic {p}"))));
+                }
+                let same = seen.iter().all(|(_, v)| *v == seen[0].1) && !seen.iter().any(|(_, v)| v.starts_with("panic"));
+                ctx.oracle("read_independent_of_schedule", "armor::Dearmor read directly with every consumer buffer size", &format!("{what} crc_check={crc} n={n} doc={}", hx(doc)), same, &format!("{seen:?}"));
+                ctx.stat("dearmor_consumers");
+            }
+        }
+    }
+}
+
 fn run_model_ops(ctx: &mut Ctx) {
     // fill_buffer: exhaustive chunkings of short inputs x requested sizes
     for n in 0..=6usize {
@@ -844,6 +900,7 @@ pub fn run(ctx: &mut Ctx) {
     run_enc_poll(ctx);
     run_alg_sweep(ctx, &key);
     run_fault_kinds(ctx, &key);
+    run_dearmor_consumers(ctx, &key);
     // thorough: repeated with fresh payloads, schedules and fault positions
     let rounds = ctx.pick(1u64, 160u64);
     let base = ctx.seed;
